@@ -2,6 +2,7 @@ package node
 
 import (
 	"bufio"
+	"errors"
 	"fmt"
 	"io"
 	"log"
@@ -12,6 +13,8 @@ import (
 	"github.com/chzyer/readline"
 	"github.com/paulsonkoly/calc/combinator"
 	"github.com/paulsonkoly/calc/flags"
+	"github.com/paulsonkoly/calc/types/bytecode"
+	"github.com/paulsonkoly/calc/types/compresult"
 	"github.com/paulsonkoly/calc/vm"
 )
 
@@ -102,10 +105,9 @@ func processInput(input string, p Parser, vm *vm.Type, doOut bool) {
 		}
 
 		ip := len(*vm.CR.CS)
-		if doOut {
-			ByteCode(e, vm.CR)
-		} else {
-			ByteCodeNoStck(e, vm.CR)
+		if err := compile(e, vm.CR, doOut); err != nil {
+			fmt.Printf("Compile error: %v\n", err)
+			continue
 		}
 
 		if *flags.ByteCodeFlag {
@@ -119,6 +121,31 @@ func processInput(input string, p Parser, vm *vm.Type, doOut bool) {
 			fmt.Printf("> %s\n", v.Display())
 		}
 	}
+}
+
+// compile compiles e into cr. A program that exceeds what an instruction can
+// address is refused with an error, leaving cr as it was.
+func compile(e Type, cr compresult.Type, doOut bool) (err error) {
+	csLen, dsLen := len(*cr.CS), len(*cr.DS)
+
+	defer func() {
+		if r := recover(); r != nil {
+			if r != bytecode.ErrOperandRange {
+				panic(r)
+			}
+			*cr.CS = (*cr.CS)[:csLen]
+			*cr.DS = (*cr.DS)[:dsLen]
+			err = errors.New("program too large, " + bytecode.ErrOperandRange.Error())
+		}
+	}()
+
+	if doOut {
+		ByteCode(e, cr)
+	} else {
+		ByteCodeNoStck(e, cr)
+	}
+
+	return nil
 }
 
 func reportError(err ParserError, line string) {
